@@ -8,6 +8,8 @@ use serde_json::{json, Value};
 use std::collections::BTreeSet;
 use txtpp::{Config, Mode, Verbosity};
 
+/// fault kinds combined with the vanishing-directory companion in the quick tier (all kinds in thorough)
+pub const VANISH_QUICK: [&str; 3] = ["command-exit-3", "missing-include", "write-limit-on-output"];
 pub const FILES: [&str; 5] = ["a", "b", "c", "d", "e"];
 pub const POS: [(&str, usize); 5] = [("root", 0), ("middle", 1), ("leaf", 2), ("sibling", 3), ("sibling-with-empty-output", 4)];
 pub const KINDS: [&str; 15] = [
@@ -158,6 +160,29 @@ pub fn faulty_tree(kind: &str, pos: usize, mode: &Mode) -> Option<Tree> {
 thread_local! {
     /// pool size of the runs started from this worker (8 = never saturated for 4 files; 1 and 2 = saturated)
     static THREADS: std::cell::Cell<usize> = const { std::cell::Cell::new(8) };
+    /// recursive scan (the "vanishing directory" companion event needs a sub-directory to be scanned)
+    static RECURSIVE: std::cell::Cell<bool> = const { std::cell::Cell::new(false) };
+}
+
+/// Companion event (fault sequences): besides the fault, an unrelated file `v` removes a source-free
+/// sub-directory that the recursive scan has scheduled; its scan then fails or not, depending on the order.
+/// The faulty file (a or b of the chain a -> b) still fails in every order, so the run must report failure.
+/// The project is cut down to a -> b (c.txt becomes a plain file) plus v, so that every completion order of
+/// the two scans and the file tasks can be explored.
+pub fn with_companion(mut t: Tree, companion: &str, kind: &str) -> Tree {
+    if companion == "vanish" {
+        for f in ["c.txt.txtpp", "d.txt.txtpp", "e.txt.txtpp", "d.txt", "e.txt", "c.tmp", "d.tmp", "e.tmp"] {
+            t.remove(f);
+        }
+        tfile(&mut t, "c.txt", oracle(2));
+        if kind != "include-a-directory" && kind != "temp-target-is-a-directory" {
+            t.remove("adir/keep");
+            t.remove("adir");
+        }
+        tfile(&mut t, "scratch/keep", "k\n");
+        tfile(&mut t, "v.txt.txtpp", "-TXTPP#run rm -rf scratch\nv\n");
+    }
+    t
 }
 
 struct Env {
@@ -179,7 +204,7 @@ impl Env {
             base_dir: self.base(),
             shell_cmd: String::new(),
             inputs: inputs.iter().map(|s| s.to_string()).collect(),
-            recursive: false,
+            recursive: RECURSIVE.with(|r| r.get()),
             num_threads: if threads == 8 { 9 } else { threads },
             mode: mode.clone(),
             verbosity: Verbosity::Quiet,
@@ -256,6 +281,82 @@ fn limit_case(rep: &Report, env: &Env, limit_exec: &std::path::Path, maxsize: us
     code
 }
 
+/// Project whose outputs end with ONE chunk larger than a writer buffer (the output of an include, of a command,
+/// a long last line): a write limit that falls inside such a chunk produces a short write, not an error.
+fn big_tree() -> Tree {
+    let mut t = Tree::new();
+    let big: String = (0..400).map(|i| format!("{:04} {}\n", i, "b".repeat(44))).collect(); // 20000 bytes
+    tfile(&mut t, "big.txt", big);
+    tfile(&mut t, "inc.txt.txtpp", "header line\nTXTPP#include big.txt\n");
+    tfile(&mut t, "cmd.txt.txtpp", "header line\n-TXTPP#run cat big.txt\n");
+    tfile(&mut t, "line.txt.txtpp", format!("header line\n{}", "L".repeat(9000)));
+    tfile(&mut t, "tmp.txt.txtpp", format!("-TXTPP#temp big.tmp\n-{}\nshort\n", "T".repeat(9000)));
+    t
+}
+const BIG_OUTS: [&str; 5] = ["inc.txt", "cmd.txt", "line.txt", "tmp.txt", "big.tmp"];
+
+fn big_limit_run(env: &Env, limit_exec: &std::path::Path, n: Option<usize>, j: &str, needed: bool, tn: bool) -> (Option<i32>, bool, Vec<Option<Vec<u8>>>) {
+    env.setup(&big_tree());
+    let mut c = match n {
+        Some(n) => {
+            let mut c = std::process::Command::new(limit_exec);
+            c.arg(n.to_string()).arg(production_cli());
+            c
+        }
+        None => std::process::Command::new(production_cli()),
+    };
+    c.current_dir(env.base()).env_remove("TXTPP_FILE").stdout(std::process::Stdio::null()).stderr(std::process::Stdio::null());
+    if needed {
+        c.arg("-N");
+    }
+    if !tn {
+        c.arg("-n");
+    }
+    c.args(["-q", "-j", j]);
+    let (st, timed_out) = status_with_timeout(&mut c, 40.0);
+    let outs = BIG_OUTS.iter().map(|o| std::fs::read(env.base().join(o)).ok()).collect();
+    (st.and_then(|s| s.code()), timed_out, outs)
+}
+
+/// one write limit on the big project; returns true if a violation was reported
+fn big_limit_case(rep: &Report, env: &Env, limit_exec: &std::path::Path, reference: &[Option<Vec<u8>>], n: usize, j: &str, needed: bool, tn: bool) -> bool {
+    let (code, timed_out, outs) = big_limit_run(env, limit_exec, Some(n), j, needed, tn);
+    rep.tv(1);
+    rep.tr(1);
+    let rj = json!({"engine": "X", "kind": "rlimit-big", "n": n, "j": j, "needed": needed, "tn": tn});
+    let desc = format!("write limit {n} bytes on the project with >8 KiB chunks, -j{j}{}{}", if needed { " --needed" } else { "" }, if tn { "" } else { " -n" });
+    if timed_out {
+        rep.violate("hang-under-write-limit", format!("{desc}: txtpp did not end within 40 s"), rj);
+        return true;
+    }
+    let code = code.unwrap_or(-1);
+    let maxsize = reference.iter().map(|o| o.as_ref().map(|b| b.len()).unwrap_or(0)).max().unwrap_or(0);
+    let expect_ok = n >= maxsize;
+    let incomplete: Vec<String> = BIG_OUTS.iter().zip(outs.iter().zip(reference.iter())).filter(|(_, (a, b))| a != b).map(|(o, (a, _))| format!("{o}: {} bytes", a.as_ref().map(|b| b.len() as i64).unwrap_or(-1))).collect();
+    if (code == 0) != expect_ok || (code == 0 && !incomplete.is_empty()) || (code != 0 && code != 1) {
+        rep.violate(
+            if code == 0 { "false-success-under-write-limit" } else { "write-limit-exit-code" },
+            format!("{desc} (largest generated file {maxsize}): exit {code}; files differing from the unlimited run: {incomplete:?}"),
+            rj,
+        );
+        return true;
+    }
+    false
+}
+
+/// write limits on the big project: every multiple of 512 up to the largest file + 1024, and +-1 around every multiple of 4096
+fn big_limits(maxsize: usize) -> Vec<usize> {
+    let mut v: BTreeSet<usize> = (0..=(maxsize + 1024) / 512).map(|k| k * 512).collect();
+    for k in 1..=(maxsize / 4096 + 1) {
+        v.insert(k * 4096 - 1);
+        v.insert(k * 4096 + 1);
+    }
+    for d in [maxsize.saturating_sub(1), maxsize, maxsize + 1, 1, 11, 12, 13] {
+        v.insert(d);
+    }
+    v.into_iter().collect()
+}
+
 pub fn run_c04(tier: &str) -> i32 {
     let rep = Report::new("C04", tier);
     let thorough = rep.thorough();
@@ -275,11 +376,18 @@ pub fn run_c04(tier: &str) -> i32 {
                     if mode == Mode::Clean && !(sel.contains(&".") || sel.iter().any(|s| s.starts_with(FILES[pos]))) {
                         continue;
                     }
-                    jobs.push((kind, pname, pos, mode.clone(), si, 8usize));
+                    jobs.push((kind, pname, pos, mode.clone(), si, 8usize, ""));
                     if si == 0 && mode == Mode::Build {
                         // saturated pools: results queue up behind the failing one
-                        jobs.push((kind, pname, pos, mode.clone(), si, 1));
-                        jobs.push((kind, pname, pos, mode.clone(), si, 2));
+                        jobs.push((kind, pname, pos, mode.clone(), si, 1, ""));
+                        jobs.push((kind, pname, pos, mode.clone(), si, 2, ""));
+                    }
+                    // fault sequences: the fault plus a directory that vanishes while it waits to be scanned
+                    if si == 0 && pos <= 1 && matches!(mode, Mode::Build | Mode::InMemoryBuild) && (thorough || VANISH_QUICK.contains(&kind)) && (thorough || mode == Mode::Build) {
+                        jobs.push((kind, pname, pos, mode.clone(), si, 8, "vanish"));
+                        if thorough {
+                            jobs.push((kind, pname, pos, mode.clone(), si, 2, "vanish"));
+                        }
                     }
                 }
             }
@@ -287,8 +395,8 @@ pub fn run_c04(tier: &str) -> i32 {
     }
     // baseline without fault
     for mode in [Mode::Build, Mode::InMemoryBuild, Mode::Verify] {
-        jobs.push(("none", "-", 0, mode.clone(), 0, 8));
-        jobs.push(("none", "-", 0, mode, 0, 1));
+        jobs.push(("none", "-", 0, mode.clone(), 0, 8, ""));
+        jobs.push(("none", "-", 0, mode, 0, 1, ""));
     }
     sharded_dyn(&rep, par_threads(), |_k, _n, next, rep| {
         let env = Env { scratch: Scratch::new() };
@@ -301,18 +409,19 @@ pub fn run_c04(tier: &str) -> i32 {
                 rep.note_cap("wall-clock cap");
                 break;
             }
-            let (kind, pname, pos, mode, si, threads) = &jobs[i];
+            let (kind, pname, pos, mode, si, threads, companion) = &jobs[i];
             THREADS.with(|t| t.set(*threads));
+            RECURSIVE.with(|r| r.set(!companion.is_empty()));
             let t = if *kind == "none" { Some(base_tree(*mode == Mode::Verify)) } else { faulty_tree(kind, *pos, mode) };
             let t = match t {
-                Some(t) => t,
+                Some(t) => with_companion(t, companion, kind),
                 None => continue,
             };
             // an output path occupied by a directory changes what the *output name* means as an input
             // (it then names a directory to scan): such inputs are given by source name
             let sel_src: Vec<String> = sels[*si].iter().map(|s| if *kind == "output-path-is-a-directory" && *s != "." { format!("{s}.txtpp") } else { s.to_string() }).collect();
             let sel_now: Vec<&str> = sel_src.iter().map(|s| s.as_str()).collect();
-            let desc = format!("fault={kind} in {} ({pname}) mode={:?} inputs={:?} threads={threads}", FILES[*pos], mode, sel_now);
+            let desc = format!("fault={kind} in {} ({pname}) mode={:?} inputs={:?} threads={threads}{}", FILES[*pos], mode, sel_now, if companion.is_empty() { String::new() } else { format!(" companion={companion} -r") });
             let mut verdicts = BTreeSet::new();
             let res = explore_tree(&env, &t, mode, &sel_now, limit_for(kind), |r| {
                 verdicts.insert(r.verdict.kind());
@@ -321,7 +430,7 @@ pub fn run_c04(tier: &str) -> i32 {
                     rep.violate(
                         if *kind == "none" { "baseline-failed" } else if r.verdict.is_ok() { "false-success" } else { "abnormal-end" },
                         format!("{desc} :: schedule {:?} :: verdict {} (worker panics {:?}) trace {:?}", r.choices(), r.verdict.kind(), r.worker_panics, r.trace),
-                        json!({"engine": "X", "kind": kind, "pos": pos, "mode": format!("{:?}", mode), "inputs": sel_now, "schedule": r.choices(), "threads": threads}),
+                        json!({"engine": "X", "kind": kind, "pos": pos, "mode": format!("{:?}", mode), "inputs": sel_now, "schedule": r.choices(), "threads": threads, "companion": companion}),
                     );
                 }
                 if *kind == "none" && r.verdict.is_ok() && *mode != Mode::Verify {
@@ -339,6 +448,10 @@ pub fn run_c04(tier: &str) -> i32 {
                     rep.tr(runs);
                     rep.st(nodes.len());
                     rep.add("fault_cases", 1);
+                    if !companion.is_empty() {
+                        rep.add("fault_cases_with_vanishing_directory", 1);
+                        rep.add("schedules_with_vanishing_directory", runs as u64);
+                    }
                     rep.max("max_schedules_per_case", runs as u64);
                     if runs > 1 {
                         rep.add("fault_cases_with_several_schedules", 1);
@@ -379,11 +492,61 @@ pub fn run_c04(tier: &str) -> i32 {
             }
         }
     });
+    // write limits inside one large chunk (short writes), trailing newline on and off
+    let env0 = Env { scratch: Scratch::new() };
+    let mut refs: std::collections::BTreeMap<(bool, bool), Vec<Option<Vec<u8>>>> = Default::default();
+    for needed in [false, true] {
+        for tn in [true, false] {
+            let (code, _, outs) = big_limit_run(&env0, &limit_exec, None, "1", needed, tn);
+            if code != Some(0) || outs.iter().any(|o| o.is_none()) {
+                rep.machinery(format!("the big project does not build without a write limit (needed={needed} tn={tn}): exit {code:?}"));
+            }
+            refs.insert((needed, tn), outs);
+        }
+    }
+    if refs[&(false, true)] != refs[&(true, true)] || refs[&(false, false)] != refs[&(true, false)] {
+        rep.machinery("build and --needed write different outputs for the big project".into());
+    }
+    let bigmax = refs[&(false, true)].iter().map(|o| o.as_ref().map(|b| b.len()).unwrap_or(0)).max().unwrap_or(0);
+    let mut bjobs = vec![];
+    for n in big_limits(bigmax) {
+        for j in if thorough { vec!["1", "4"] } else { vec!["1"] } {
+            for needed in [false, true] {
+                for tn in [true, false] {
+                    bjobs.push((n, j, needed, tn));
+                }
+            }
+        }
+    }
+    rep.set("write_limit_runs_large_chunks", json!(bjobs.len()));
+    rep.set("large_chunk_project", json!("outputs ending with one chunk > 8 KiB: include of a 20000-byte file, command output of 20000 bytes, a 9000-byte last line, a 9000-byte temp target; limits = every multiple of 512 up to the largest file + 1024, +-1 around every multiple of 4096, trailing newline on/off, build and --needed"));
+    sharded_dyn(&rep, par_threads() * 3, |_k, _n, next, rep| {
+        let env = Env { scratch: Scratch::new() };
+        loop {
+            let i = next();
+            if i >= bjobs.len() {
+                break;
+            }
+            let (n, j, needed, tn) = bjobs[i];
+            big_limit_case(rep, &env, &limit_exec, &refs[&(needed, tn)], n, j, needed, tn);
+        }
+    });
     rep.finish()
 }
 
 pub fn replay(v: &Value) -> bool {
     let env = Env { scratch: Scratch::new() };
+    if v["kind"].as_str() == Some("rlimit-big") {
+        let rep = Report::new("C04", "quick");
+        let limit_exec = std::env::current_exe().unwrap().parent().unwrap().join("limit-exec");
+        let j = v["j"].as_str().unwrap_or("1").to_string();
+        let needed = v["needed"].as_bool().unwrap_or(false);
+        let tn = v["tn"].as_bool().unwrap_or(true);
+        let (_, _, reference) = big_limit_run(&env, &limit_exec, None, &j, needed, tn);
+        let bad = big_limit_case(&rep, &env, &limit_exec, &reference, v["n"].as_u64().unwrap_or(0) as usize, &j, needed, tn);
+        println!("replay: write limit {} on the large-chunk project: violation {bad}", v["n"]);
+        return bad;
+    }
     if v["kind"].as_str() == Some("rlimit") {
         let rep = Report::new("C04", "quick");
         let sizes: Vec<usize> = (0..4).map(|j| oracle(j).len()).chain((0..4).map(|j| format!("{} body", FILES[j]).len())).collect();
@@ -402,6 +565,9 @@ pub fn replay(v: &Value) -> bool {
     let prefix: Vec<usize> = v["schedule"].as_array().map(|a| a.iter().map(|x| x.as_u64().unwrap() as usize).collect()).unwrap_or_default();
     let t = if kind == "none" { base_tree(mode == Mode::Verify) } else { faulty_tree(kind, pos, &mode).expect("fault applies") };
     THREADS.with(|t| t.set(v["threads"].as_u64().unwrap_or(8) as usize));
+    let companion = v["companion"].as_str().unwrap_or("");
+    RECURSIVE.with(|r| r.set(!companion.is_empty()));
+    let t = with_companion(t, companion, kind);
     env.setup(&t);
     let r = with_fsize_limit(limit_for(kind), || run_controlled(env.cfg(&mode, &inputs), &CtlOpts { prefix, explore: Explore::Reduced, max_tasks: 64 }));
     println!("replay: fault={kind} pos={pos} mode={:?}: verdict {} trace {:?}", mode, r.verdict.kind(), r.trace);
